@@ -156,6 +156,26 @@ let sld_path name =
     | "base.sld" -> Filename.concat repo "src/interpreter/library/include/scheme/base.sld"
     | _ -> Filename.concat repo "src/interpreter/library/include/scheme/write.sld"
 let grammar_text = lazy (str_of_string (read_file_str (sld_path "grammar.sld")))
+(* names of the native procedures the Rust source registers: the first string literal after every
+   `function_mapping!(` of base.rs / write.rs (always read from the repository, also in reference mode) *)
+let native_names (file : string) : string list =
+  let root = try Sys.getenv "RUSCHM_REPO" with Not_found -> "/repo" in
+  let text = read_file_str (Filename.concat root ("src/interpreter/library/native/" ^ file)) in
+  let key = "function_mapping!(" in
+  let n = String.length text and k = String.length key in
+  let rec go i acc =
+    if i + k > n then List.rev acc
+    else if String.sub text i k = key then begin
+      let j = ref (i + k) in
+      while !j < n && (text.[!j] = ' ' || text.[!j] = '\n' || text.[!j] = '\t' || text.[!j] = '\r') do incr j done;
+      if !j < n && text.[!j] = '"' then begin
+        let e = String.index_from text (!j + 1) '"' in
+        go e (String.sub text (!j + 1) (e - !j - 1) :: acc)
+      end else go (i + k) acc
+    end else go (i + 1) acc in
+  go 0 []
+let base_names = lazy (List.map str_of_string (native_names "base.rs"))
+let write_names = lazy (List.map str_of_string (native_names "write.rs"))
 let base_text = lazy (str_of_string (read_file_str (sld_path "base.sld")))
 let write_text = lazy (str_of_string (read_file_str (sld_path "write.sld")))
 let syn0 = lazy (initial_syntax (Lazy.force grammar_text))
@@ -238,7 +258,7 @@ let fresh_cache : (bool, (instance * state * sframe)) Hashtbl.t = Hashtbl.create
 
 let new_inst (i : int) (std : bool) : string =
   let build () =
-    let ((ri, st1), syn1) = new_instance (Lazy.force base_text) (Lazy.force write_text) !w_st !w_syn in
+    let ((ri, st1), syn1) = new_instance (Lazy.force base_text) (Lazy.force write_text) (Lazy.force base_names) (Lazy.force write_names) !w_st !w_syn in
     match ri with
     | Ok inst ->
         let inst = register_factory inst (lname ["verif"; "tick"]) (FNative tick_lib) in
